@@ -131,6 +131,34 @@ impl SimCallback {
     }
 }
 
+/// A callback type without any state (zero-sized), as users write them when the callback reports
+/// to a global: its log is the one `make()` opened last. Never used together with clones.
+#[derive(Clone)]
+pub struct ZstCallback;
+thread_local! {
+    static ZST_LOG: std::cell::Cell<u32> = const { std::cell::Cell::new(0) };
+}
+impl OnEvictCallback for ZstCallback {
+    fn on_evict<K2, V2>(&self, key: &K2, val: &V2) {
+        world::user_call(CallKind::Callback);
+        let proxy = SimCallback { id: ZST_LOG.with(|c| c.get()) };
+        crate::alloc::harness_scope(|| proxy.record(key, val));
+        if world::cb_panic_due() && !std::thread::panicking() {
+            std::panic::panic_any(world::SoftCbPanic);
+        }
+    }
+}
+impl Cb for ZstCallback {
+    const HAS: bool = true;
+    fn make() -> Self {
+        ZST_LOG.with(|c| c.set(world::new_cb_log()));
+        ZstCallback
+    }
+    fn id(&self) -> Option<u32> {
+        Some(ZST_LOG.with(|c| c.get()))
+    }
+}
+
 pub trait Cb: OnEvictCallback + Clone + 'static {
     const HAS: bool;
     fn make() -> Self;
